@@ -35,7 +35,10 @@ ThetaStep ==
                 <<"SurvivalAndSpreadAreFunctionsOfTheta", E.bad # 0 \/ (E.sp_theta = E.theta /\ E.spread2 = E.theta
                                                                        /\ Abs(E.s0q - E.thetaq) <= 2)>>,
                 <<"ImpliedMapsInvert", E.bad # 0 \/ (E.theta_at_implied = E.theta
+                                                     \* (magnitudes first: a wild value must fail the clause, not overflow TLC's integers)
+                                                     /\ Abs(E.A1) <= 20000 /\ Abs(E.A2) <= 20000 /\ Abs(E.x) <= 90000
                                                      /\ Abs(E.A2 * 10000 - E.A1 * (10000 + E.x)) <= 6 * 10000
+                                                     /\ Abs(E.A1m) <= 2000 /\ Abs(E.RTm) <= 1000000
                                                      /\ Abs(E.A1m * E.RTm - E.omx) <= E.RTm + Abs(E.A1m) + 10)>> >>)
     /\ ln' = ln + 1 /\ UNCHANGED <<tid, fin>>
 RaiseStep ==
